@@ -225,25 +225,30 @@ func lookupHit(p *walk.Path, at int, isMap, isKey func(walk.DV) bool) bool {
 
 // elemOfFieldLoad: dv is *(&(base.field)[i]) — an element of slice field f of base.
 func elemOfFieldLoad(p *walk.Path, dv walk.DV, f interface{ Name() string }, base ssa.Value) bool {
+	// every operand is resolved through inlined frames: the element may be ranged over inside a helper that was handed
+	// the field's value (allowedGroupsOf(s.Groups)), round 7
 	r := p.Resolve(dv)
 	u, ok := r.V.(*ssa.UnOp)
 	if !ok || u.Op != token.MUL {
 		return false
 	}
-	ia, ok := u.X.(*ssa.IndexAddr)
+	iaDV := p.Resolve(p.Op(u.X, r))
+	ia, ok := iaDV.V.(*ssa.IndexAddr)
 	if !ok {
 		return false
 	}
-	ld, ok := ia.X.(*ssa.UnOp)
+	ldDV := p.Resolve(p.Op(ia.X, iaDV))
+	ld, ok := ldDV.V.(*ssa.UnOp)
 	if !ok || ld.Op != token.MUL {
 		return false
 	}
-	fa, ok := ld.X.(*ssa.FieldAddr)
+	faDV := p.Resolve(p.Op(ld.X, ldDV))
+	fa, ok := faDV.V.(*ssa.FieldAddr)
 	if !ok {
 		return false
 	}
 	fv := walk.FieldOf(fa.X.Type(), fa.Field)
-	return fv != nil && fv.Name() == f.Name() && fa.X == base
+	return fv != nil && fv.Name() == f.Name() && p.Resolve(p.Op(fa.X, faDV)).V == base
 }
 
 func runC08AuthOnlyAuthorize(c *Ctx, rule string, aoa *ssa.Function) {
